@@ -25,6 +25,8 @@ func YamlToJson(data []byte) ([]byte, error) {
 
 func toStringKeyMap(v any) any {
 	switch v := v.(type) {
+	case nil:
+		return nil
 	case []any:
 		return convertSlice(v)
 	case map[any]any:
